@@ -3,15 +3,73 @@ import Blue.Proofs.LogTrunc
 import Blue.Proofs.FlushCrash
 import Blue.Proofs.StoreCrash
 import Blue.Proofs.FsyncCore
-/-! Property C02: the theorems the check builds and audits (spike inventory; the build phase
-    completes the list from DESIGN Appendix C.0). -/
+/-! # Property C02 — acknowledged writes survive any crash; recovery is all-or-nothing per batch
+
+Property theorems only.  `Blue.StoreCrash` models the store's file-system protocol: the
+operation list `opsOf h` that a history `h` of puts, flushes, clean reopens and compactions
+issues (log append / sync / ack; write and sync an SST under tmp/, link it, append and sync one
+manifest transaction, move the inputs to the trash, unlink the temporaries), a logical file
+system with per-file durable content, and `recoverA` / `recoverB` — `KeyValueStore::open` on the
+image a crash leaves under (a) "completed calls persist" and (b) "unsynced bytes are lost".
+The correspondence check derives the same operation list from an `strace` of the real store and
+compares it with `opsOf` (canonicalisation rules spelled out in `harness/src/c02.rs`), and reopens
+the real crash image of every prefix with the real code.
+
+`crash_recover` is at batch granularity with whole system calls; a torn log tail is
+`truncated_log_prefix` (C12), a torn manifest `torn_manifest` (C13).  Assumption shared with the
+run-time images: directory operations are durable at once and in program order (the code never
+fsyncs a directory).  Not covered by a theorem: GC drops inside a compaction (C05), a flush
+racing a compaction, a crash during recovery from an earlier crash (explored by the check). -/
+namespace Blue.Props.C02
+open Blue.StoreCrash
+
+/-- **for every history, every crash point `n` in its system-call sequence, both persistence
+    models: the reopen succeeds and yields exactly the batches `0 … k-1` (as a permutation) with
+    `acknowledged ≤ k ≤ appended`** — every acknowledged write, at most the one in flight in
+    addition, nothing invented, nothing partial -/
+theorem crash_recover (h : List Client) (n : Nat) :
+    Ok (recoverB (run fs0 ((opsOf h kv0).take n))) (acked ((opsOf h kv0).take n)) (appended ((opsOf h kv0).take n))
+    ∧ Ok (recoverA (run fs0 ((opsOf h kv0).take n))) (acked ((opsOf h kv0).take n)) (appended ((opsOf h kv0).take n)) :=
+  crash_recover_init h n
+
+/-- what `Ok` says -/
+theorem ok_means (r : Option (List Nat)) (lo hi : Nat) :
+    Ok r lo hi ↔ ∃ l k, r = some l ∧ l.Perm (List.range k) ∧ lo ≤ k ∧ k ≤ hi := Iff.rfl
+
+/-- operations on tmp/, acknowledgements, creating an empty log, linking or trashing a name the
+    manifest does not list cannot change what a reopen sees (the justification of the
+    canonicalisation rules of the trace comparison) -/
+theorem frame_ops_invisible {view : File → List Nat} (hv : view ⟨[], []⟩ = []) {txs : List Tx} {fs : Fs} {op : Op}
+    (h : FrameOp (live txs) op) :
+    recover view txs (step fs op) = recover view txs fs
+    ∧ (step fs op).maniDurable = fs.maniDurable ∧ (step fs op).maniPending = fs.maniPending :=
+  frame_step hv h
+
+/-- mutants at model level (each a closed counterexample): trashing the log before the manifest
+    edit loses an acknowledged write; linking an unsynced SST, or trashing compaction inputs before
+    the transaction is durable, makes the reopen fail -/
+theorem mutants :
+    Blue.FlushCrash.recoverB (Blue.FlushCrash.run Blue.FlushCrash.fs0
+        ((Blue.FlushCrash.opsOf [.put] Blue.FlushCrash.kv0 ++ Blue.FlushCrash.flushBad [0] 0).take 8)) = some []
+    ∧ Blue.FlushCrash.recoverB (Blue.FlushCrash.run Blue.FlushCrash.fs0
+        (Blue.FlushCrash.opsOf [.put] Blue.FlushCrash.kv0 ++ Blue.FlushCrash.flushNoSync [0] 0)) = none :=
+  ⟨Blue.FlushCrash.trash_before_manifest_loses, Blue.FlushCrash.unsynced_sst_breaks_reopen⟩
+
+/-- non-vacuity: two flushed files are compacted into one; the crash falls right after the manifest
+    transaction is synced, with the inputs still in sst/ -/
+example :
+    let h : List Client := [.put, .flush, .put, .flush, .compact (fun _ => true) [[1, 0]], .put]
+    recoverB (run fs0 ((opsOf h kv0).take 28)) = some [1, 0] := by decide
+
+end Blue.Props.C02
+
+#print axioms Blue.Props.C02.crash_recover
+#print axioms Blue.Props.C02.ok_means
+#print axioms Blue.Props.C02.frame_ops_invisible
+#print axioms Blue.Props.C02.mutants
 #print axioms Blue.LogCrash.crash_prefix
 #print axioms Blue.FlushCrash.crash_recover_B
 #print axioms Blue.FlushCrash.crash_recover_A
-#print axioms Blue.StoreCrash.crash_recover
-#print axioms Blue.StoreCrash.crash_recover_init
 #print axioms Blue.StoreCrash.tx_block
 #print axioms Blue.FsyncCore.answered_true_is_durable
 #print axioms Blue.StoreCrash.trash_inputs_early_breaks_reopen
-#print axioms Blue.FlushCrash.trash_before_manifest_loses
-#print axioms Blue.FlushCrash.unsynced_sst_breaks_reopen
